@@ -210,6 +210,78 @@ def native_pdos(contract, name, conc, notes):
                       f"clauses failing natively: {failed}"}
 
 
+def _nested(parent, name, closure):
+    """the real nested function `name` of `parent`, bound to `closure`
+    (compiled from the real source text, nothing re-written)"""
+    import ast
+    import inspect
+    import textwrap
+    import ebpfcat.ethercat as E
+    src = textwrap.dedent(inspect.getsource(parent))
+    tree = ast.parse(src)
+    for n in ast.walk(tree):
+        if isinstance(n, (ast.FunctionDef, ast.AsyncFunctionDef)) and n.name == name and n is not tree.body[0]:
+            mod = ast.Module(body=[n], type_ignores=[])
+            env = dict(vars(E))
+            env.update(closure)
+            exec(compile(mod, f"<{parent.__qualname__}.{name}>", "exec"), env)
+            return env[name]
+    raise LookupError(name)
+
+
+def native_generator(name, conc, notes):
+    from contracts import c17_eeprom as S
+    from ebpfcat.ethercat import Terminal
+    if not conc or not isinstance(conc.get("s"), (bytes, bytearray)):
+        return {"inputs": None, "reproduced": None, "detail": "no concrete input"}
+    s = bytes(conc["s"])
+    gen = _nested(Terminal.parse_pdos, "parse_eeprom", {})
+
+    async def collect():
+        return [t async for t in gen(s)]
+    try:
+        got = asyncio.run(collect())
+    except Exception as e:      # noqa
+        return {"inputs": {"s": s.hex()}, "reproduced": True, "detail": f"real parse_eeprom raised {type(e).__name__}: {e}"}
+    want, m, n = [], 0, len(s) // 8
+    while m < n:
+        e = s[8 * m + 2]
+        for r in range(1, e + 1):
+            want.append(S.triple(s, m + r))
+        m += e + 1
+    return {"inputs": {"s": s.hex()}, "reproduced": got != want,
+            "detail": f"real nested generator parse_eeprom: yields {got[:6]}, the category stores {want[:6]}"}
+
+
+def native_consumer(name, conc, notes):
+    from contracts import c17_eeprom as S
+    from ebpfcat.ethercat import SyncManager, Terminal
+    if not conc or not isinstance(conc.get("func"), list):
+        return {"inputs": None, "reproduced": None, "detail": "no concrete input"}
+    func = [tuple(t) for t in conc["func"]]
+    sm = conc["sm"] if isinstance(conc["sm"], SyncManager) else SyncManager(conc["sm"])
+    t = object.__new__(Terminal)
+    t.pdos = {}
+    parse = _nested(Terminal.parse_pdos, "parse", {"self": t})
+
+    async def gen():
+        for x in func:
+            yield x
+    try:
+        result = asyncio.run(parse(gen(), sm))
+    except Exception as e:      # noqa
+        return {"inputs": {"func": func}, "reproduced": True, "detail": f"real parse raised {type(e).__name__}: {e}"}
+    pos, want = 0, {}
+    for idx, sub, bits in func:
+        if idx != 0:
+            want[idx, sub] = (sm, pos // 8, S.where_of(bits, pos))
+        pos += bits
+    return {"inputs": {"func": func, "sm": sm.name}, "reproduced": result != pos or t.pdos != want,
+            "detail": f"real nested consumer parse: returned {result} (sum of bits {pos}), pdos "
+                      f"{ {f'{k[0]:#x}:{k[1]}': v[1:] for k, v in t.pdos.items()} }, stored layout "
+                      f"{ {f'{k[0]:#x}:{k[1]}': v[1:] for k, v in want.items()} }"}
+
+
 def run(tier, seed):
     from contracts import c17_eeprom as S
     rep = R.Report("C17", tier, seed)
@@ -226,7 +298,10 @@ def run(tier, seed):
     rep.bound(f"Terminal.read_eeprom is proved for images with {', '.join(map(str, cats))} categories - bounded in "
               "the number of categories; category lengths, contents, types, the 4/8-byte mode and every busy "
               "duration are unbounded (loop invariants of _eeprom_read_one and get_data).  "
-              "parse_sync_managers is proved for any number of entries.")
+              "parse_sync_managers is proved for any number of entries.  parse_pdos: its nested generator (the "
+              "sequence of yields of a category with any number of PDOs and entries) and its nested consumer "
+              "(byte/bit positions and formats over any sequence) are proved unbounded; their composition in "
+              "parse_pdos itself is checked end to end for categories of a bounded number of slots.")
     S.install()
     try:
         api.verify(S.read_one, rep, replay=native_read_one)
@@ -240,6 +315,17 @@ def run(tier, seed):
         api.verify(c, rep, replay=lambda n, i, nt: native_sync_managers(c, n, i, nt))
         for c in S.pdo_contracts(tier):
             api.verify(c, rep, replay=lambda n, i, nt, c=c: native_pdos(c, n, i, nt))
+        # the two halves of parse_pdos for categories of ANY size: the nested
+        # generator as the sequence of its yields, the nested consumer over any
+        # sequence (their composition is exercised by the bounded contracts above)
+        # (registered only while they are verified: the bounded contracts above
+        # run the real nested bodies, not these contracts)
+        for make, rp in ((S.parse_eeprom, native_generator), (S.parse_consumer, native_consumer)):
+            c = make()
+            try:
+                api.verify(c, rep, replay=rp)
+            finally:
+                api.REGISTRY.pop(c.qualname, None)
     finally:
         S.uninstall()
     return rep.finish(
